@@ -262,7 +262,9 @@ MANIFEST = {
         "factory = distinct objects with one qualified name, lambdas, a module-level function; a function is an opaque token with the identity "
         "of the Python object), with one instance per function value of every callable attribute in every run and the substitution laws "
         "re-checked on the second of two instances that differ only in such an attribute (SymPy caches subs by equality); unfold results modulo SymPy's non-confluent arithmetic canonicalisation: expand, then "
-        "numeric evaluation). SymPy's behaviour on built-in nodes, lambdify, numpy and pickle are executed, not modelled. New classes appear "
+        "numeric evaluation). SymPy's behaviour on built-in nodes, lambdify, numpy and pickle are executed, not modelled. Four classes are defined at run time with every decorator option (implement_doit=False, commutative=False, "
+        "defaults, ClassVar, attributes in the middle of the field list, own _numpycode) and go through the table, the correspondence and the "
+        "oracles like the package classes; the generated __new__ is compared with the model on every positional prefix. New classes appear "
         "in the table automatically (introspection); new helper classes are listed but only the known ones are instantiated."
     ),
 }
